@@ -70,6 +70,14 @@ type Violation struct {
 	Detail string      `json:"detail"` // what the real code did vs. what the property demands
 }
 
+// Premise is a statically checked assumption of the model about the code (e.g. "methods keep no state between
+// calls other than the reviewed fields") that no longer holds.  Like a broken proof obligation it triggers the
+// failing-input search; it is never by itself a failing input.
+type Premise struct {
+	Name   string `json:"name"`
+	Detail string `json:"detail"`
+}
+
 type Result struct {
 	Property       string         `json:"property"`
 	Tier           string         `json:"tier"`
@@ -82,6 +90,7 @@ type Result struct {
 	NDisagreements int            `json:"n_disagreements"`
 	Violations     []Violation    `json:"violations"`
 	NViolations    int            `json:"n_violations"`
+	Premises       []Premise      `json:"broken_premises"` // modelling premises about the code that no longer check (not failing inputs)
 	Distribution   map[string]int `json:"distribution"`
 	Samples        []string       `json:"samples"`
 	Rule           string         `json:"rule"`
@@ -374,6 +383,18 @@ func (c *Ctx) Oracle(suite string, ok bool, key string, input interface{}, detai
 	if len(c.res.Violations) < maxKeep {
 		c.res.Violations = append(c.res.Violations, Violation{suite, key, input, detail})
 	}
+}
+
+// BrokenPremise records a modelling premise that no longer checks.
+func (c *Ctx) BrokenPremise(name, detail string) {
+	c.mu.Lock()
+	defer c.mu.Unlock()
+	for _, p := range c.res.Premises {
+		if p.Name == name {
+			return
+		}
+	}
+	c.res.Premises = append(c.res.Premises, Premise{name, detail})
 }
 
 func (c *Ctx) TimeLeft() bool { return time.Now().Before(c.Deadline) }
